@@ -4,5 +4,5 @@ From Coq Require Import QArith Qcanon.
 Require Import ExtrOcamlBasic.
 Extraction "poly_model.ml"
   zclean zfrom_vec zcoeff zlc zadd zsub zneg zgmul kmul zimul zpow zeval zdiff zdivides degree
-  fits_u32 zpow_fits zdivides_fits
+  fits_u32 zpow_fits zdivides_fits qpow_fits qdivides_fits
   qclean qfrom_vec qcoeff qlc qadd qsub qneg qgmul qimul qpow qeval qdiff qdivides Q2Qc.
